@@ -833,13 +833,15 @@ class DocTest:
                     )
                 except KeyboardInterrupt:  # nocover
                     raise
-                except Exception:
-                    raise
-                    # self.exc_info = sys.exc_info()
-                    # ex_type, ex_value, tb = self.exc_info
-                    # self.failed_tb_lineno = tb.tb_lineno
-                    # if on_error == 'raise':
-                    #     raise
+                except Exception as _compile_ex:
+                    # Errors that are only found when the part is compiled
+                    # (e.g. "return" outside of a function) are failures of
+                    # this doctest like any other.
+                    self.exc_info = sys.exc_info()
+                    self.failed_tb_lineno = getattr(_compile_ex, 'lineno', None) or 1
+                    if on_error == 'raise':
+                        raise
+                    break
                 try:
                     # Execute the doctest code
                     try:
@@ -1324,6 +1326,11 @@ class DocTest:
                         if self._partfilename is not None and self._partfilename in line:
                             # Intercept the line corresponding to the doctest
                             tbparts = line.split(',')
+                            if not tbparts[-2].strip().startswith('line '):
+                                # Not a regular frame entry (e.g. the location
+                                # line of a SyntaxError found at compile time)
+                                new_tblines.append(line)
+                                continue
                             tb_lineno = int(tbparts[-2].strip().split()[1])
                             # modify the line number to match the doctest
                             linepart = tbparts[-2].split(' ')
